@@ -157,3 +157,41 @@ def edge_states(fn, client, states):
             if feasible is False:
                 continue
             yield b, s, kind, payload, out
+
+
+def block_of(fn, nid):
+    """id of the CFG block holding AST node nid as an element (or as terminator condition)"""
+    for b in fn.cfg["blocks"]:
+        for e in b["el"]:
+            if e.get("n") == nid:
+                return b["id"]
+    return None
+
+
+def reachable(fn, avoid_edge=None, start=None):
+    """block ids reachable from the entry; avoid_edge(block, succ_id, kind, payload) -> True to drop an edge"""
+    blocks = fn.blocks()
+    start = fn.cfg["entry"] if start is None else start
+    seen = {start}
+    work = [start]
+    while work:
+        b = blocks[work.pop()]
+        for (s, kind, payload) in successors(fn, b):
+            if avoid_edge is not None and avoid_edge(b, s, kind, payload):
+                continue
+            if s not in seen:
+                seen.add(s)
+                work.append(s)
+    return seen
+
+
+def dominated_by_branch(fn, target_nid, cond_nid, truth):
+    """every entry->target path takes the `truth` edge of the branch on cond_nid"""
+    tb = block_of(fn, target_nid)
+    if tb is None:
+        return False
+    want = "true" if truth else "false"
+    # remove the wanted edge: if the target is still reachable, some path avoids it
+    r = reachable(fn, lambda b, s, kind, payload: kind == want and payload == cond_nid)
+    has = any(b.get("cond") == cond_nid for b in fn.cfg["blocks"])
+    return has and tb not in r
